@@ -269,7 +269,7 @@ pub fn ep_theme() -> impl Strategy<Value = RawPos> {
         any::<bool>(),                        // white is the capturer (to move)
         0u8..8,                               // file of the double-stepped pawn
         0u8..3,                               // capturers: 0 left, 1 right, 2 both
-        0u8..6,                               // arrangement
+        0u8..9,                               // arrangement
         any::<u16>(),                         // king selector
         any::<u16>(),                         // slider selector
         0u8..64,                              // other king
@@ -301,6 +301,8 @@ pub fn ep_theme() -> impl Strategy<Value = RawPos> {
             let free = |s: &u8| !occupied.contains(s);
             let mut king = None;
             let mut slider: Option<(u8, u8)> = None;
+            let mut enemy_king: Option<u8> = None;
+            let mut own_slider: Option<(u8, u8)> = None;
             match arr {
                 1 => {
                     // same rank: king on one side, rook/queen on the other
@@ -351,6 +353,35 @@ pub fn ep_theme() -> impl Strategy<Value = RawPos> {
                         }
                     }
                 }
+                6 | 7 | 8 => {
+                    // the capture DISCOVERS an attack on the enemy king: enemy king and an own
+                    // slider on a line through the captured pawn (6: diagonal), through both
+                    // pawns (7: rank) or through the capturer's origin (8: diagonal)
+                    let through = if arr == 8 { capturers[0] } else { victim };
+                    let line: Vec<u8> = if arr == 7 {
+                        (0..8).filter_map(|x| sq_of(x, r)).filter(free).collect()
+                    } else {
+                        attack_origins(2, true, through).into_iter().filter(free).collect()
+                    };
+                    if let Some(k) = pick(&line, ksel) {
+                        let df = (file_of(through) - file_of(k)).signum();
+                        let dr = (rank_of(through) - rank_of(k)).signum();
+                        let mut opp = Vec::new();
+                        let (mut cf, mut cr) = (file_of(through) + df, rank_of(through) + dr);
+                        while let Some(s) = sq_of(cf, cr) {
+                            if free(&s) {
+                                opp.push(s);
+                            }
+                            cf += df;
+                            cr += dr;
+                        }
+                        if let Some(s) = pick(&opp, ssel) {
+                            enemy_king = Some(k);
+                            let t = if arr == 7 { if ssel & 1 == 0 { 3 } else { 4 } } else if ssel & 1 == 0 { 2 } else { 4 };
+                            own_slider = Some((s, t));
+                        }
+                    }
+                }
                 5 => {
                     // the double-stepped pawn gives check: capturing it e.p. is a way out
                     let fwd: i8 = if white { -1 } else { 1 };
@@ -366,7 +397,11 @@ pub fn ep_theme() -> impl Strategy<Value = RawPos> {
             if let Some((s, t)) = slider {
                 items.push((s, t, !white));
             }
+            if let Some((s, t)) = own_slider {
+                items.push((s, t, white));
+            }
             let king = king.unwrap_or_else(|| (ksel % 64) as u8);
+            let ok = enemy_king.unwrap_or(ok);
             let (wk, bk) = if white { (king, ok) } else { (ok, king) };
             items.extend(extras);
             RawPos {
